@@ -8,6 +8,7 @@ mod watchdog;
 mod zlibffi;
 mod corpus;
 mod drv;
+mod streams;
 mod props;
 
 use std::cell::RefCell;
